@@ -169,6 +169,11 @@ def generate(rng, tier):
                     yield {"arg": arg, "columns": cols}
     for _ in range(30000 if tier == "thorough" else 1500):
         yield rand_big(rng)
+    # a single whitespace-free token of a few thousand characters (a hex blob, a URL): thousands of pieces
+    blob = "0123456789abcdef" * 150
+    yield {"arg": ["s", "id " + blob + " end"], "columns": 2}
+    yield {"arg": ["f", [["x ", [2, 0, 0, 0, 0, 0, 0, 0]], [blob[:1500], [0, 5, 1, 0, 0, 0, 0, 0]]]], "columns": 1}
+    yield {"arg": ["s", blob], "columns": 80}
     # a few calls outside the claimed domain (model only)
     for cols in (0, -1, -2):
         yield {"arg": ["s", "ab cde f"], "columns": cols}
